@@ -1,8 +1,10 @@
 package rules
 
 import (
+	"fmt"
 	"go/ast"
 	"go/types"
+	"os"
 	"sort"
 	"strings"
 
@@ -151,6 +153,9 @@ func c02escape(c *core.Ctx) {
 		}
 		pos := c.P.Pos(h.site.Instr.Pos())
 		what := "panic in " + fn + " reachable from entry " + core.FuncName(h.entry) + " without a catcher"
+		if os.Getenv("JSV_DUMP_PANIC_ORIGINS") != "" {
+			fmt.Fprintf(os.Stderr, "ORIGIN\t%s\t%s\n", key, panicOrigin(h.site))
+		}
 		if strings.HasSuffix(fn, ").String") && isStringerPanic(h.site) {
 			c.Tabled(R, key, pos, what, "generated stringer range assertion (rule C02.ptype checks the guard covers all declared constants)")
 			continue
@@ -158,6 +163,18 @@ func c02escape(c *core.Ctx) {
 		if r, ok := escapeTable[key]; ok {
 			c.Tabled(R, key, pos, what, r)
 			continue
+		}
+		// the same panic after its statements were moved into / out of a helper of the package:
+		// identified by what is thrown (the error of which call, or which error code)
+		k2 := panicOrigin(h.site)
+		if os.Getenv("JSV_DUMP_PANIC_ORIGINS") != "" {
+			fmt.Fprintf(os.Stderr, "ORIGIN\t%s\t%s\n", key, k2)
+		}
+		if pe, ok := escapeOrigins[k2]; ok && k2 != "" {
+			if r, ok := escapeTable[pe]; ok {
+				c.Tabled(R, key, pos, what, r+" (the panic tabled for "+pe+", moved)")
+				continue
+			}
 		}
 		c.Bad(R, key, pos, what, "a Go panic can escape to the caller; chain: "+h.chain)
 	}
@@ -327,4 +344,72 @@ func typeStr(t types.Type) string {
 		return "?"
 	}
 	return core.Rel(t.String())
+}
+
+// panicOrigin names what a panic throws, independent of the function it stands in: the package and
+// either the call whose error result is thrown, or the text of the thrown expression's constructor.
+func panicOrigin(s core.PanicSite) string {
+	pkg := core.FuncPkgPath(s.Fn)
+	var src func(v ssa.Value, depth int) string
+	src = func(v ssa.Value, depth int) string {
+		if depth > 6 {
+			return ""
+		}
+		switch x := v.(type) {
+		case *ssa.MakeInterface:
+			return src(x.X, depth+1)
+		case *ssa.ChangeInterface:
+			return src(x.X, depth+1)
+		case *ssa.Extract:
+			if call, ok := x.Tuple.(*ssa.Call); ok {
+				if sc := call.Call.StaticCallee(); sc != nil {
+					return "result of " + core.FuncName(sc)
+				}
+				if call.Call.IsInvoke() {
+					return "result of ." + call.Call.Method.Name()
+				}
+			}
+		case *ssa.Call:
+			if sc := x.Call.StaticCallee(); sc != nil {
+				// an error constructor: Code.F(...) - name the code
+				if len(x.Call.Args) > 0 {
+					if c, ok := x.Call.Args[0].(*ssa.Const); ok && c.Value != nil {
+						return core.FuncName(sc) + "(" + c.Value.ExactString() + ")"
+					}
+				}
+				return "result of " + core.FuncName(sc)
+			}
+		case *ssa.Phi:
+			for _, e := range x.Edges {
+				if s := src(e, depth+1); s != "" {
+					return s
+				}
+			}
+		case *ssa.UnOp:
+			if al, ok := x.X.(*ssa.Alloc); ok {
+				for _, ref := range *al.Referrers() {
+					if st, ok := ref.(*ssa.Store); ok && st.Addr == al {
+						if s := src(st.Val, depth+1); s != "" {
+							return s
+						}
+					}
+				}
+			}
+		}
+		return ""
+	}
+	o := src(s.Instr.X, 0)
+	if o == "" {
+		return ""
+	}
+	return pkg + ": " + o
+}
+
+// escapeOrigins: panics that throw the error of one particular call are recognised by that call when
+// the statement moves between functions of the package (helper extracted or inlined).
+var escapeOrigins = map[string]string{
+	"github.com/jsightapi/jsight-schema-core/openapi/internal/rsoac: result of (*notations/regex.RSchema).GetAST":                "openapi/internal/rsoac.getASTNode",
+	"github.com/jsightapi/jsight-schema-core/notations/jschema: result of .ASTNode":                                              "(*notations/jschema.JSchema).BuildASTNode",
+	"github.com/jsightapi/jsight-schema-core/notations/jschema/ischema: result of (*notations/jschema/ischema.Constraints).Each": "notations/jschema/ischema.collectASTRules",
+	"github.com/jsightapi/jsight-schema-core/openapi/internal: result of encoding/json.Marshal":                                  "openapi/internal.ToJSONString",
 }
